@@ -58,8 +58,9 @@ func init() {
 		t := args[0].(*StructV)
 		ext := t.F[1].(*Term)
 		wall := t.F[0].(*Term)
-		if wall.Const && wall.U&hasMonotonic == 0 {
-			return notHandled{}, false // a wall-clock time (time.Unix): execute the real method
+		if !(wall.Const && wall.U == hasMonotonic) {
+			// not one of the engine's monotonic instants (e.g. a wall-clock time from time.Unix): execute the real method
+			return notHandled{}, false
 		}
 		return e.C.App("unixnano!", BV(64), ext), false
 	})
